@@ -26,12 +26,12 @@ def scenarios(tier):
     if tier == 'thorough':
         for jac in (True, False):
             S.append(scenario(f'T_sl_np4_j{int(jac)}', dict(NP=4, NL=1, MAXITER=4, JAC=jac, TEND=16), fd=(False, True),
-                              explore=40000, mc_workers=8))
+                              explore=12000, mc_workers=8))
         for pred in ('none', 'fine_only', 'pfasst_burnin'):
             S.append(scenario(f'T_ml3_np4_{pred}', dict(NP=4, NL=3, NSW=[2, 2, 1], MAXITER=4, PRED=pred, TEND=16),
-                              explore=20000, mc_workers=8))
+                              explore=4000, mc_workers=8))
             S.append(scenario(f'T_ml2_np4_a2d_{pred}', dict(NP=4, NL=2, NSW=[2, 1], MAXITER=4, PRED=pred, A2D=True, TEND=16),
-                              fd=(False, True), explore=5000, mc_workers=8))
+                              fd=(False, True), explore=2500, mc_workers=8))
         S.append(scenario('T_np8_rand', dict(NP=8, NL=2, NSW=[1, 1], MAXITER=10, PRED='pfasst_burnin', TEND=64), mc=False,
                           rand=400))
     return S
